@@ -1266,7 +1266,7 @@ fn e_cases(u: &Universe) -> Vec<ECase> {
     for f in ["emit", "trace"] {
         range("event_id", f, 0, u32max, &|x| prog(&format!("push.1 {f}.{x}")));
     }
-    range("debug_param", "debug.stack", 1, 255, &|x| prog(&format!("push.1 debug.stack.{x}")));
+    range("debug_param", "debug.stack", 1, 65535, &|x| prog(&format!("push.1 debug.stack.{x}")));
     range("debug_param", "debug.local", 0, 65535, &|x| format!("proc.x.2 push.1 debug.local.{x} end begin exec.x end"));
     range("debug_param", "debug.local.n.n", 0, 65535, &|x| format!("proc.x.2 push.1 debug.local.{x}.{x} end begin exec.x end"));
     range("injector_param", "adv.insert_hdword", 0, 255, &|x| prog(&format!("push.1 adv.insert_hdword.{x}")));
